@@ -1,5 +1,6 @@
 """Per-property campaigns: structured generation, online execution on implementation + model,
 monitors, divergence judgement.  Every random choice derives from one seed."""
+import zlib
 import itertools, math, os, random, struct, sys, time
 sys.path.insert(0, os.path.dirname(os.path.abspath(__file__)))
 import corr, gen, monitors as Mn, canon as Cn
@@ -202,7 +203,7 @@ def run_campaign(res, prop, plan, n_hist, seed, scope, observers=(), versions=(6
         if deadline and time.time() > deadline:
             res.notes.append('time budget reached after %d histories' % h)
             break
-        hseed = (seed * 1000003 + h * 7919 + hash(prop) % 1000) & 0x7fffffff
+        hseed = (seed * 1000003 + h * 7919 + zlib.crc32(prop.encode()) % 1000) & 0x7fffffff
         rng = random.Random(hseed)
         version = rng.choice(versions)
         s, events, div = online(rng, version, hseed, plan, observers, compare_state)
